@@ -151,8 +151,10 @@ def _pack(dense, fmt, dup, shape=None):
 class SpecProblem(Problem):
     """The user's problem.  policy: 'fresh' | 'const' | 'memo' (see DESIGN C11)."""
 
-    def __init__(self, spec, fmt="coo", dup=False, policy="fresh", vec_dtype=None):
+    def __init__(self, spec, fmt="coo", dup=False, policy="fresh", vec_dtype=None, obj_array=False):
         self.spec = spec
+        # the objective value handed over as a 0-d numpy array (np.asarray of a scalar, an out= buffer, ...)
+        self.obj_array = obj_array
         # problem data handed over in a narrower dtype where that represents it exactly: integer coefficients as
         # int64/int32/int8, 0/1 incidence matrices as bool, single-precision data as float32
         self.mat_dtype = spec.meta.get("mat_dtype") or ("int64" if spec.meta.get("int_matrices") else None)
@@ -281,7 +283,10 @@ class SpecProblem(Problem):
 
     # Problem interface -----------------------------------------------------------
     def obj(self, x):
-        v = self._obj(np.array(x, dtype=float))
+        x = np.array(x, dtype=float)
+        v = self._obj(x)
+        if self.obj_array:
+            return self._deliver("obj", x.tobytes(), lambda: np.array(v, dtype=float), False)
         return v if self.vec_dtype is None else self._vec(np.array([v]))[0]
 
     def obj_grad(self, x):
@@ -799,6 +804,31 @@ def gen_intqp(rng, n=None):
     return Spec(Q, q, A, np.zeros(m), lb, ub, l, u, x0=x0, meta={"family": "INTQP", "xs": xs, "mat_dtype": mat_dtype})
 
 
+def gen_narrow(rng):
+    """Feasible convex QP with one row whose range [L, L+w] is narrow relative to its large offset
+    (w between 1e-3 and 0.4e-5*L, L = 1e4..1e7) and a box that excludes the lower end of the range but not the range:
+    the minimiser sits at the box corner with c(x) = L + 0.6 w, strictly inside the range."""
+    n = int(rng.integers(1, 4))
+    L = float(10.0 ** rng.uniform(4.0, 7.0))
+    w = float(10.0 ** rng.uniform(-3.0, np.log10(0.4e-5 * L)))
+    sign = 1.0 if rng.random() < 0.7 else -1.0   # (a negative offset mirrors the construction)
+    A = np.ones((1, n)) * sign
+    lo = (L + 0.6 * w) / n
+    lb = np.full(n, lo) * sign if sign > 0 else np.full(n, -INF)
+    ub = np.full(n, INF) if sign > 0 else np.full(n, -lo) * 1.0
+    if sign < 0:
+        # x_j <= -lo, row -sum(x) in [L, L+w]
+        lb = np.full(n, -INF)
+        ub = np.full(n, -lo)
+    Q = np.diag(rng.uniform(0.5, 2.0, size=n))
+    # the objective (positive near the corner, so that the objective limit plays no role) pulls towards the
+    # excluded side: its unconstrained minimiser is at -q/Q, on the other side of the origin
+    q = sign * rng.uniform(1.0, 5.0, size=n)
+    xs = np.full(n, lo) * sign
+    x0 = xs + sign * rng.uniform(0.0, 0.3 * w / n, size=n)
+    return Spec(Q, q, A, np.zeros(1), lb, ub, [L], [L + w], x0=x0, meta={"family": "NARROW", "xs": xs, "L": L, "w": w})
+
+
 def gen_f32qp(rng, **kw):
     """QP whose matrices hold single-precision data (every entry of Q and A is a float32 value) and are handed
     over as float32 sparse matrices."""
@@ -821,6 +851,7 @@ FAMILIES = {
     "NCVX": lambda rng, **kw: gen_ncvx(rng, **kw),
     "INTQP": lambda rng, **kw: gen_intqp(rng, **kw),
     "F32QP": lambda rng, **kw: gen_f32qp(rng, **kw),
+    "NARROW": lambda rng, **kw: gen_narrow(rng, **kw),
 }
 
 
@@ -834,9 +865,18 @@ def gen_file(rng, path=None):
     with open(os.path.join(boot.VERIF, path)) as f:
         d = json.load(f)
     fl = lambda a: np.array([float(v) for v in a])  # noqa: E731
-    spec = Spec(np.array(d["Q"]), np.array(d["q"]), np.array(d["A"]), np.array(d["e"]), fl(d["var_lb"]),
-                fl(d["var_ub"]), fl(d["cons_lb"]), fl(d["cons_ub"]), x0=np.array(d["x0"]),
-                meta={"family": "QP-dense", "xs": np.array(d["xs"]), "witness": path})
+    n = len(d["q"])
+    B = None
+    if d.get("B") is not None:
+        B = [None if b is None else np.array(b, dtype=float) for b in d["B"]]
+    spec = Spec(np.array(d["Q"], dtype=float).reshape(n, n), np.array(d["q"], dtype=float),
+                np.array(d["A"], dtype=float).reshape(-1, n), np.array(d["e"], dtype=float), fl(d["var_lb"]),
+                fl(d["var_ub"]), fl(d["cons_lb"]), fl(d["cons_ub"]),
+                sp_a=None if d.get("sp_a") is None else np.array(d["sp_a"], dtype=float),
+                sp_W=None if d.get("sp_W") is None else np.array(d["sp_W"], dtype=float).reshape(-1, n), B=B,
+                x0=np.array(d["x0"], dtype=float), y0=None if d.get("y0") is None else np.array(d["y0"], dtype=float),
+                meta={"family": d.get("family", "QP-dense"), "xs": np.array(d.get("xs", d["x0"]), dtype=float),
+                      "witness": path})
     return spec
 
 
